@@ -37,6 +37,12 @@ CHECKS = {
         "Trusted: ipaddress, urllib.parse.urlsplit, socket.inet_aton.",
         "DESIGN.md 3/C10",
     ),
+    "C11": (
+        "language containment of the documented indicator grammars in the shipped patterns (regex->DFA with exact \\b and edge assertions, full TLD table as a trie), look-around / alphabet checks against the neutral delimiter set, provenance terms (value = match text, span = match span), truth-table comparison of every rejecting filter with the reference list, sibling-table agreement of file-name labels, loop-shape check of the CreateObject scanner",
+        "Decides necessary conditions for detection: every documented indicator text is in the language of its pattern; neutral delimiters can neither veto nor be absorbed by a match; regex-only indicators report exactly the match; nothing but the validators and the documented heuristics can reject a match; labels agree with EXT_MAP; the parenthesis scanner returns the balancing position. Which candidate leftmost-greedy search selects, pefile parsing and path shapes are not decided.",
+        "Trusted: the regex module finds a match when the text is in the language and no cut (possessive/atomic) construct is present; pefile.",
+        "DESIGN.md 3/C11",
+    ),
     "C13": (
         "provenance terms from abstract interpretation (conversion applied to a group of the match whose whole span is the node span), regex-automaton facts (group alphabets, minimum lengths, language containment/equality), guard truth table for find_base64's rejection rules, structural match of apply_xor_key/dexor",
         "Decides the structural half of exactness: which stdlib conversion is applied to exactly which delimited text and reported over exactly which span with which label; the acceptance thresholds (22 chars, multiple of 4, > 6 distinct, not pure hex/letters, slash rule; 10 same-case hex pairs; > 500 array elements) and that the documented call forms are matched as one unit; xor applies b ^ key to every byte of the parent's value with the stated key. Bit-exactness of binascii and the key xortool guesses are not decided.",
